@@ -81,6 +81,7 @@ type Cluster struct {
 	nextScan uint64
 	Viol     []string // violations observed by the servers (routing, framing)
 	Now      func() int64 // fake time in ns, set by the simulator
+	StepFn   func() uint64
 	Rand     interface {
 		Intn(int) int
 		Chance(float64) bool
